@@ -54,7 +54,9 @@ def setup(I, name, cfg):
     cfg = dict(cfg, module=MP, ref_file=REF_FILE)
     # (exceptions thrown in: an Exception, and a BaseException that is neither an Exception nor a GeneratorExit - Python's
     # `except Exception` must not see the latter, `finally` must)
-    b = Bisim(I, name, replay="generators.script", cfg=cfg, throw_classes=[ABS_EXC, ABS_BASE_EXC])
+    # ... and the RunEngine's own stop / abort signals (the statement names them), which are Exceptions like any other for the wrappers
+    ctl = [I.P.class_info("bluesky.utils", "RequestAbort"), I.P.class_info("bluesky.utils", "RequestStop")]
+    b = Bisim(I, name, replay="generators.script", cfg=cfg, throw_classes=[ABS_EXC, ABS_BASE_EXC] + ctl)
     ref = reference_module(I.P, "verif_ref_c22", REF)
     return b, ref
 
